@@ -133,7 +133,13 @@ def handle (line : String) : String :=
           let nw := match m with | some (_, _, w) => w.length | none => 0
           let mres := match m with | some (c, _, _) => toString c.length | none => "err"
           let sres := match s with | some (c, _) => toString c.length | none => "err"
-          s!"model={if meq then "eq" else "ne"} spec={if sok then "ok" else "fail"} mres={mres} sres={sres} wild={nw}" ++
+          -- hypothesis of `C09_slot` (Props/C09.lean) on this case; under it the theorem says model slot = spec slot, no wild byte
+          let pre : Bool := stmts.all (slotStmtOK mc sc)
+          let thm : Bool := !pre || (match m, s with
+            | none, none => true
+            | some (mcells, me, w), some (scells, se) => mcells == scells && me == se && w.isEmpty
+            | _, _ => false)
+          s!"model={if meq then "eq" else "ne"} spec={if sok then "ok" else "fail"} mres={mres} sres={sres} wild={nw} pre={if pre then 1 else 0} thm={if thm then "ok" else "BROKEN"}" ++
             (if meq then "" else " mout=" ++ (match m with | some (c, _, _) => showCells c | none => "ERR")) ++
             (if sok then "" else " sout=" ++ (match s with | some (c, _) => showCells c | none => "ERR"))
     | _, _, _ => "bad-request header"
